@@ -39,25 +39,40 @@ func (core *JApiCore) compileCore() *jerr.JApiError {
 
 func (core *JApiCore) checkMacroForRecursion() *jerr.JApiError {
 	for macroName, macro := range core.macro {
-		if je := findPaste(macroName, macro); je != nil {
+		if je := core.findPaste(macroName, macro, map[string]struct{}{}); je != nil {
 			return je
 		}
 	}
 	return nil
 }
 
-func findPaste(macroName string, d *directive.Directive) *jerr.JApiError {
+// findPaste looks for a PASTE of the macro macroName inside the directive d,
+// following the macros pasted there, so that a cycle going through any number
+// of macros is found. visited holds the macros which were already followed.
+func (core *JApiCore) findPaste(macroName string, d *directive.Directive, visited map[string]struct{}) *jerr.JApiError {
 	if d.Type() == directive.Paste {
-		switch d.NamedParameter("Name") {
+		name := d.NamedParameter("Name")
+		switch name {
 		case "":
 			return d.KeywordError(fmt.Sprintf("%s (%s)", jerr.RequiredParameterNotSpecified, "Name"))
 
 		case macroName:
 			return d.KeywordError("recursion is prohibited")
 		}
+
+		if pasted, ok := core.macro[name]; ok {
+			if _, ok := visited[name]; !ok {
+				visited[name] = struct{}{}
+				for _, c := range pasted.Children {
+					if je := core.findPaste(macroName, c, visited); je != nil {
+						return je
+					}
+				}
+			}
+		}
 	} else if d.Children != nil {
 		for _, c := range d.Children {
-			if je := findPaste(macroName, c); je != nil {
+			if je := core.findPaste(macroName, c, visited); je != nil {
 				return je
 			}
 		}
